@@ -7,6 +7,7 @@ import (
 	"context"
 	"encoding/json"
 	"fmt"
+	"net"
 	"os"
 	"path/filepath"
 	"sort"
@@ -34,7 +35,7 @@ func init() {
 }
 
 type FsNode struct {
-	Kind     string    `json:"kind"` // file | dir | symlink | fifo
+	Kind     string    `json:"kind"` // file | dir | symlink | fifo | socket
 	Name     string    `json:"name"`
 	Size     int       `json:"size,omitempty"`
 	Seed     uint64    `json:"seed,omitempty"`
@@ -58,6 +59,15 @@ func materialise(dir string, n *FsNode) error {
 		return os.Symlink(n.Target, p)
 	case "fifo":
 		return syscall.Mkfifo(p, 0o644)
+	case "socket":
+		l, err := net.Listen("unix", p)
+		if err != nil {
+			return err
+		}
+		if ul, ok := l.(*net.UnixListener); ok {
+			ul.SetUnlinkOnClose(false) // keep the socket file after closing the listener
+		}
+		return l.Close()
 	case "dir":
 		if err := os.Mkdir(p, 0o755); err != nil {
 			return err
@@ -77,7 +87,7 @@ func materialise(dir string, n *FsNode) error {
 }
 
 func hasFifo(n *FsNode) bool {
-	if n.Kind == "fifo" {
+	if n.Kind == "fifo" || n.Kind == "socket" {
 		return true
 	}
 	for _, c := range n.Children {
@@ -224,7 +234,7 @@ func coqFs(n *FsNode) string {
 		return "(FFile " + coqBytes(synthContent(n.Seed, n.Size)) + ")"
 	case "symlink":
 		return "(FSymlink " + coqBytes([]byte(n.Target)) + ")"
-	case "fifo":
+	case "fifo", "socket":
 		return "FOther"
 	}
 	kids := append([]*FsNode{}, n.Children...)
@@ -312,7 +322,7 @@ func scnFsImport(rep *Report, rng *Rng, tier string, outdir string) {
 			sz := []int{0, 1, 10, 300, 2000}[rng.Intn(5)]
 			return &FsNode{Kind: "file", Name: name, Size: sz, Seed: uint64(rng.Intn(200))}
 		case k < 6:
-			return &FsNode{Kind: "symlink", Name: name, Target: rng.Pick([]string{"../a", "/abs/olute", "dangling-target", "b.txt", ""})}
+			return &FsNode{Kind: "symlink", Name: name, Target: rng.Pick([]string{"../a", "/abs/olute", "dangling-target", "b.txt", "", "./b.txt", "sub/", "sub//x", "a/../b", "./"})}
 		default:
 			d := &FsNode{Kind: "dir", Name: name}
 			n := rng.Intn(5)
@@ -352,6 +362,12 @@ func scnFsImport(rep *Report, rng *Rng, tier string, outdir string) {
 		fixEmptySymlinks(root)
 		add(FsInput{Root: root, Twice: i%4 == 0})
 	}
+	// unix sockets: at the root and nested (the temporary directory keeps the socket path short)
+	add(FsInput{Root: &FsNode{Kind: "socket", Name: "sock"}})
+	add(FsInput{Root: &FsNode{Kind: "dir", Name: "r", Children: []*FsNode{{Kind: "file", Name: "a", Size: 5}, {Kind: "dir", Name: "d", Children: []*FsNode{{Kind: "socket", Name: "agent.sock"}}}}}})
+	// symlinks whose target text is not a cleaned path
+	add(FsInput{Root: &FsNode{Kind: "dir", Name: "r", Children: []*FsNode{{Kind: "file", Name: "plain.txt", Size: 3}, {Kind: "dir", Name: "sub"},
+		{Kind: "symlink", Name: "l1", Target: "./plain.txt"}, {Kind: "symlink", Name: "l2", Target: "sub/"}, {Kind: "symlink", Name: "l3", Target: "sub//x"}, {Kind: "symlink", Name: "l4", Target: "a/../plain.txt"}}}})
 	// fifos at several depths
 	add(FsInput{Root: &FsNode{Kind: "fifo", Name: "pipe"}})
 	add(FsInput{Root: &FsNode{Kind: "dir", Name: "r", Children: []*FsNode{{Kind: "file", Name: "a", Size: 5}, {Kind: "dir", Name: "d", Children: []*FsNode{{Kind: "fifo", Name: "p"}}}}}})
